@@ -168,6 +168,19 @@ func (e *Exec) fBinR(op string, a, b Float) Float {
 	if r, ok := e.dyExact(op, a, b); ok {
 		return r
 	}
+	// multiplication / division by exactly +-1 is exact
+	if op == "*" && a.IsC && (a.C == 1 || a.C == -1) && !e.opaque {
+		if a.C == 1 {
+			return b
+		}
+		return e.fNegX(b)
+	}
+	if (op == "*" || op == "/") && b.IsC && (b.C == 1 || b.C == -1) && !e.opaque {
+		if b.C == 1 {
+			return a
+		}
+		return e.fNegX(a)
+	}
 	x, y := e.fT(a), e.fT(b)
 	al, ah, aok := ivOf(a)
 	bl, bh, bok := ivOf(b)
